@@ -19,6 +19,9 @@ ASSUMPTIONS = ['patterns are derived textually with ast.unparse from re-parsed t
 EXPLANATION = 'bounded-exhaustive programs x all derived patterns on the real find_matches; oracle = construction'
 
 
+CALL_CHAIN = ["draw(10)", "move(5)", "draw(20)", "move(x)", "turn(x, 5)", "pen.down()"]
+
+
 def _setup():
     global cmds, find_matches, set_source, verify
     import importlib
@@ -192,6 +195,10 @@ def phases(tier):
               describe='programs of <=2 statements x every derived pattern'),
         Phase('assign-chains', make_body(cc.CHAIN, 4, len(cc.CHAIN), chain=True), setup=_setup, chunk=300,
               describe='programs of <=4 similar assignments x drop/rename-all/wildcard compositions'),
+        Phase('call-chains', make_body(CALL_CHAIN[:5] if not th else CALL_CHAIN, 3 if not th else 4, len(CALL_CHAIN), chain=True),
+              setup=_setup, chunk=300,
+              describe='programs of <=3 (thorough: 4) similar call statements x drop/rename-all/wildcard compositions '
+                       '(function placeholders)'),
         Phase('explicit-code', make_explicit(cc.STM, 14), setup=_setup, chunk=300,
               describe='find_matches(pattern, code) while another submission is loaded'),
         Phase('after-sub-match', make_after_submatch(cc.STM, 4 if not th else 12), setup=_setup, chunk=300,
